@@ -45,9 +45,11 @@ def decorate(d, T, v):
         if t['k'] in ir.RECORD_KINDS:
             for c in t['comps']:
                 if c['p'] == 'def':
-                    occ.setdefault(id(c['t']), (c['t'], []))[1].append(c['d'])
-                    if id(c['t']) not in order:
-                        order.append(id(c['t']))
+                    # (a constructed default brings values for the nodes below it, too)
+                    for t2, x2 in fz.present_nodes(c['t'], c['d']):
+                        occ.setdefault(id(t2), (t2, []))[1].append(x2)
+                        if id(t2) not in order:
+                            order.append(id(t2))
     for key in order:
         t, vals = occ[key]
         k = t['k']
